@@ -1,5 +1,5 @@
 import MuscleModel.Reflector.UpdateProofs
-import MuscleModel.Reflector.MirrorProofs22
+import MuscleModel.Reflector.MirrorProofs26
 
 /-!
 # C04 — A subscriber's mirror of the node tree converges to the server's tree
@@ -46,6 +46,14 @@ any history.
 Section 9 (lemmas `Reflector/MirrorProofs21…22.lean`): arrival of another session (`step_mirror_attach_other`), unsubscribe
 with the client's drop rule `applyUnsub` (`step_mirror_unsubscribe`), histories with arrivals (`History`) and
 `converges_fixed_subs_arrivals`.
+
+Section 10 (lemmas `Reflector/MirrorProofs23…25.lean`): the index commands of other sessions (`step_mirror_ins_other`,
+`step_mirror_set_indexed_other`, `step_mirror_reorder_other`), `FreshSessNode` in every reachable state
+(`fresh_sess_node_reach`, invariant `HK`), `Story` = every command class + arrivals without hypothesis, and
+`converges_fixed_subs_story`.
+
+Section 11 (lemmas `Reflector/MirrorProofs26.lean`): `converges_changing_subs` — the subscriber's own SUBSCRIBEs of new
+paths and unsubscribes (client drop rule threaded through the replay) interleaved with `Story` segments.
 
 Full statements of the property theorems that are NOT proved (kept for reference):
   `step_mirror : MReach sv → CmdOK c → ∀ attached s with subscriptions enabled, ∃ evs, Sync s.sid s sv (runCmd sv a c) m evs`
@@ -813,5 +821,119 @@ example : FreshSessNode exSv1 [106] := by
 example : (getNode exSv1 [[104]]).map (fun hn => (findKid (sidName exSv1.nextSid) hn.kids).isSome) = some false := by
   decide +kernel
 example : namesOf (pathString [[105], [49], [97]]) = [[105], [49], [97]] := by decide
+
+/-! ## 10. the index commands; arrivals without hypothesis; `Story`
+
+`InsDepthOK sv a key`: the nodes the insert traversal of session `a` visits lie above depth 110 (the model has no
+`MUSCLE_MAX_NODE_DEPTH` check).  `HK sv`: every node `[host, x]` has `x = sidName k` with `k < sv.nextSid`.
+`Inv2 sv = Inv sv ∧ HK sv` (every `CReach` state: `creach_inv2`).  `StoryCmd sid sv a c`: SETDATA within the depth bound (with
+the index flag: `a ≠ sid`); REMOVEDATA; INSERTORDEREDDATA (`a ≠ sid`, `InsDepthOK`); REORDERDATA (`a ≠ sid`); otherwise a
+quiet command that is `CmdOK`.  `Story sid`: such commands, pushes, departures of others, arrivals. -/
+
+/-- PR_COMMAND_INSERTORDEREDDATA of another session: each inserted child is a notified creation (generated name `I<n>`);
+    counter, index entry and `NodeIndexChanged` do not touch the data view (index Messages are no data lines). -/
+theorem step_mirror_ins_other {sid a : Nat} (ha : a ≠ sid) {sv : Server} (h : Inv sv) (key before : Bytes) (vals : List Nat)
+    (hd : InsDepthOK sv a key) :
+    SyncFor sid sv (runCmd sv a (.ins key before vals)) :=
+  (syncFor_insertOrdered ha h.2 key before vals hd).1
+
+/-- SETDATA with SETDATANODE_FLAG_ADDTOINDEX of another session (inner nodes created plainly, the last clause by
+    `InsertOrderedChild`, nothing when it exists). -/
+theorem step_mirror_set_indexed_other {sid a : Nat} (ha : a ≠ sid) {sv : Server} (h : Inv sv) (path : Bytes)
+    (hok : SetOK path) (x : Nat) : SyncFor sid sv (runCmd sv a (.set path x true)) :=
+  (syncFor_setIndexed ha h.2 path hok x).1
+
+/-- PR_COMMAND_REORDERDATA of another session: an empty step of the data pipe, no payload changes. -/
+theorem step_mirror_reorder_other {sid a : Nat} (ha : a ≠ sid) (sv : Server) (key before : Bytes) :
+    PipeStep sid sv (runCmd sv a (.reorder key before)) [] ∧
+    ∀ w, (getNode (runCmd sv a (.reorder key before)) w).map Node.data = (getNode sv w).map Node.data :=
+  quiet_reorder ha sv key before
+
+theorem creach_inv2 {sv : Server} (h : CReach sv) : Inv2 sv := h.inv2
+
+/-- in every reachable state an arriving session finds no child of its host node named like its id -/
+theorem fresh_sess_node_reach {sv : Server} (h : CReach sv) (host : Bytes) : FreshSessNode sv host := h.fresh host
+
+theorem story_step {sid : Nat} {sv sv' : Server} (hh : Story sid sv sv') (h : Inv2 sv) : SyncFor sid sv sv' ∧ Inv2 sv' :=
+  story_sync hh h
+
+/-- `converges_fixed_subs` over `Story`: after ONE SUBSCRIBE from the empty mirror, ANY interleaving of the commands of
+    all sessions (every command class for the others; SETDATA, REMOVEDATA, PING, GETPARAMETERS and client-to-client
+    Messages also for the subscriber itself), pushes, departures of others and arrivals keeps the replayed mirror right at
+    every quiescent point.  NOT covered: further SUBSCRIBE / unsubscribe / parameter / index commands of the subscriber
+    itself, and plain (non-reflecting) subscribers without the `SnapVisits` hypothesis. -/
+theorem converges_fixed_subs_story_thm {sv0 sv' : Server} (h0 : Inv2 sv0) {sid : Nat} {s0 : Sess}
+    (hs0 : sv0.sess? sid = some s0) (hnos : s0.subs = []) (hen : s0.subsEnabled = true) (hq0 : pend s0 = {})
+    (path : Bytes) (f : Option Filt) (hgood : GoodPath (adjustPrefix path (some defaultPrefix)))
+    (hV : SnapVisits (subC sv0 sid path f) (subSess s0 path f) (adjustPrefix path (some defaultPrefix)) f)
+    (hh : Story sid (runCmd sv0 sid (.sub path f)) sv')
+    (hq' : ∀ s', sv'.sess? sid = some s' → pend s' = {}) :
+    ∃ s' sent, sv'.sess? sid = some s' ∧ dataLines s' = dataLines s0 ++ sent.map dataText ∧
+      s'.subs = pmPut [] (adjustPrefix path (some defaultPrefix)) f ∧
+      MirrorOK sv' s' (applyMsgs (fun _ => none) sent) :=
+  converges_fixed_subs_story h0 hs0 hnos hen hq0 path f hgood hV hh hq'
+
+/-! Non-vacuity: a `Story` for subscriber 0 from `runCmd exSv1 0 (.sub a)`: session 1 reorders, a third session arrives on
+a new host, session 1 pings, push. -/
+example : Story 0 (runCmd exSv1 0 (.sub [97] none))
+    (pushAll (runCmd (attach (runCmd (runCmd exSv1 0 (.sub [97] none)) 1 (.reorder [42] [])) 2 [106]).1 1 (.ping 1))) :=
+  .trans (.cmd 1 (.reorder [42] []) (show (1 : Nat) ≠ 0 by decide))
+    (.trans (.attach 2 [106] (by decide) (by decide +kernel)) (.trans (.cmd 1 (.ping 1) ⟨trivial, trivial⟩) .push))
+
+/-! ## 11. `converges` with a changing subscription set
+
+`In` = what the client consumes: `.data u` (a PR_RESULT_DATAITEMS Message) or `.unsub pm` (its own unsubscribe, with the
+subscription set that remains); `client m items` = its fold (`applyMsg` — removals first, then sets — resp. `applyUnsub`);
+`msgsOf items` = the Messages among them.  `SubNewOK sid sv path f`: `GoodPath`, the subscriber has no entry under this
+normalised spelling yet (`pmFind … = none`: F10 excluded), `SnapVisits` (`subNewOK_reflect_self`: for a subscriber that reflects
+to itself only the first two).  `Run sid`: `Story` segments that end with nothing pending for `sid` (every engine command is
+followed by a push), SUBSCRIBEs of new paths by `sid`, unsubscribes by `sid`, in any order. -/
+
+theorem subNewOK_reflect_self {sid : Nat} {sv : Server} (hti : TreeInv sv) (path : Bytes) (f : Option Filt)
+    (hgood : GoodPath (adjustPrefix path (some defaultPrefix)))
+    (h : ∀ s, sv.sess? sid = some s → s.reflectSelf = true ∧ pmFind s.subs (adjustPrefix path (some defaultPrefix)) = none) :
+    SubNewOK sid sv path f :=
+  subNewOK_of_reflectSelf hti path f hgood h
+
+theorem client_def (m : Mirror) (items : List In) :
+    client m items = items.foldl (fun m i => match i with | .data u => applyMsg m u | .unsub pm => applyUnsub pm m) m := by
+  unfold client
+  have : clientStep = (fun m i => match i with | .data u => applyMsg m u | .unsub pm => applyUnsub pm m) := by
+    funext m i
+    cases i <;> rfl
+  rw [this]
+
+/-- CONVERGENCE with a changing subscription set.  `sv0` satisfies the invariants (every `CReach` state: `creach_inv2`, i.e.
+    anything reached from the empty server); `sid` is attached with no subscription, subscriptions enabled, nothing pending,
+    and its client holds the empty mirror.  After ANY `Run sid` — its own SUBSCRIBEs of new paths (with or without filters),
+    its own unsubscribes, and in between any interleaving of every command class of the other sessions, its own
+    SETDATA / REMOVEDATA / PING / GETPARAMETERS / Messages, pushes, departures and arrivals —: nothing is pending, the data
+    lines appended to its inbox are the text of the Messages among `items`, and the client's fold over `items` holds exactly
+    the nodes matching its CURRENT subscription set with their current payloads.
+    NOT covered (so the unrestricted `converges` is still open): re-subscription of an existing path with another filter
+    (re-filter), the subscriber's own parameter and index commands, plain (non-reflecting) subscribers without the
+    `SnapVisits` hypothesis. -/
+theorem converges_changing_subs {sid : Nat} {sv0 sv' : Server} (h0 : Inv2 sv0) {s0 : Sess} (hs0 : sv0.sess? sid = some s0)
+    (hnos : s0.subs = []) (hen : s0.subsEnabled = true) (hq0 : pend s0 = {}) (hr : Run sid sv0 sv') :
+    ∃ s' items, sv'.sess? sid = some s' ∧ pend s' = {} ∧
+      dataLines s' = dataLines s0 ++ (msgsOf items).map dataText ∧
+      MirrorOK sv' s' (client (fun _ => none) items) :=
+  converges_run h0 hs0 hnos hen hq0 hr
+
+/-! Non-vacuity: a `Run` for subscriber 0 from `exSv1`: it subscribes to `a`, session 1 sets `a` to 6 and a push follows, it
+unsubscribes `a`. -/
+theorem exSv1_sess0 : (exSv1.sess? 0).map (fun s => (s.subs.length, s.reflectSelf)) = some (0, true) := by decide +kernel
+
+example : Run 0 exSv1 (runCmd (pushAll (runCmd (runCmd exSv1 0 (.sub [97] none)) 1 (.set [97] 6 false))) 0 (.unsub [97])) := by
+  refine .trans (.subNew [97] none ?_) (.trans (.seg (.trans (.cmd 1 (.set [97] 6 false) setOK_a) .push) ?_) (.unsub [97]))
+  · apply subNewOK_reflect_self (creach_inv2 exSv1_creach).1.1 [97] none goodPath_a
+    intro s hs
+    have h := exSv1_sess0
+    rw [hs] at h
+    simp only [Option.map_some, Option.some.injEq, Prod.mk.injEq] at h
+    have hnil : s.subs = [] := List.eq_nil_of_length_eq_zero h.1
+    exact ⟨h.2, by rw [hnil]; rfl⟩
+  · intro s' hs'
+    exact pend_after_pushAll (by decide +kernel) hs'
 
 end Muscle.Props.C04
